@@ -78,6 +78,32 @@ theorem nextLayer_consumes (k : ℕ) (hk4 : k ≤ 4) (b : Felt) (yv xi : ℕ →
   have := nextLayer_count k hk4 b yv xi qi cidx hq hqb hc hmem sibs r h
   omega
 
+/-- on well-formed query indices `computeNextLayer` returns `ok` or `err "SiblingWitnessTooShort"` -/
+theorem nextLayer_wf (k : ℕ) (hk1 : 1 ≤ k) (hk4 : k ≤ 4) (b : Felt) (yv xi : ℕ → Felt)
+    (qi cidx : List ℕ) (hq : qi.Pairwise (· < ·)) (hqb : ∀ q ∈ qi, q < 2 ^ 64)
+    (hc : cidx.Pairwise (· < ·)) (hmem : ∀ c, c ∈ cidx ↔ ∃ q ∈ qi, q / 2 ^ k = c)
+    (sibs : List Felt) :
+    (∃ r, computeNextLayer (qi.map fun idx : ℕ => (⟨(idx : Felt), yv idx, xi idx⟩ : LayerQuery)) sibs
+      ((2 ^ k : ℕ) : Felt) b = .ok r) ∨
+    computeNextLayer (qi.map fun idx : ℕ => (⟨(idx : Felt), yv idx, xi idx⟩ : LayerQuery)) sibs
+      ((2 ^ k : ℕ) : Felt) b = .err "SiblingWitnessTooShort" := by
+  have h := nextLayerLoop_wf yv xi b k hk1 hk4 cidx qi hq hqb hc hmem (qi.length + 1)
+    (Nat.lt_succ_self _) sibs [] [] []
+  unfold computeNextLayer
+  rw [List.length_map]
+  exact h
+
+/-- with fewer sibling values than needed the result is exactly `err "SiblingWitnessTooShort"` -/
+theorem nextLayer_consumes_err (k : ℕ) (hk1 : 1 ≤ k) (hk4 : k ≤ 4) (b : Felt) (yv xi : ℕ → Felt)
+    (qi cidx : List ℕ) (hq : qi.Pairwise (· < ·)) (hqb : ∀ q ∈ qi, q < 2 ^ 64)
+    (hc : cidx.Pairwise (· < ·)) (hmem : ∀ c, c ∈ cidx ↔ ∃ q ∈ qi, q / 2 ^ k = c)
+    (sibs : List Felt) (hshort : sibs.length < (expectedSiblings (2 ^ k) yv cidx qi).length) :
+    computeNextLayer (qi.map fun idx : ℕ => (⟨(idx : Felt), yv idx, xi idx⟩ : LayerQuery)) sibs
+      ((2 ^ k : ℕ) : Felt) b = .err "SiblingWitnessTooShort" := by
+  rcases nextLayer_wf k hk1 hk4 b yv xi qi cidx hq hqb hc hmem sibs with ⟨r, h⟩ | h
+  · exact absurd h (nextLayer_consumes k hk4 b yv xi qi cidx hq hqb hc hmem sibs hshort r)
+  · exact h
+
 /-- the list of touched cosets exists (and is unique, being sorted with prescribed members) -/
 theorem cosetIndices_exists (qi : List ℕ) (n : ℕ) :
     ∃ cidx : List ℕ, cidx.Pairwise (· < ·) ∧ ∀ c, c ∈ cidx ↔ ∃ q ∈ qi, q / n = c := by
